@@ -102,6 +102,17 @@ MUTANTS = [
     dict(id="c13-lock-after-scripts-only-first", prop="C13", file=A, find="        if (new_stakes.contains_key(&coin_id.txhash)\n", repl="        if spend_idx == 0 && (new_stakes.contains_key(&coin_id.txhash)\n", expect="R3/locked/"),
     dict(id="c13-stakes-before-create", prop="C13", file=A, find="    for (k, v) in new_stakes {\n        next_state.stakes.add_stake(k, v);\n    }\n    Ok(next_state)", repl="    for (k, v) in new_stakes.into_iter().take(1) {\n        next_state.stakes.add_stake(k, v);\n    }\n    Ok(next_state)", expect="R6/add/"),
     dict(id="c13-q-fold-sum", prop="C13", file=A, find="    stake_doc.e_start > curr_epoch\n        && stake_doc.e_post_end > stake_doc.e_start", repl="    stake_doc.e_post_end > stake_doc.e_start\n        && curr_epoch < stake_doc.e_start", expect=None),
+    # ---------------------------------------------------------------- C19
+    dict(id="c19-drop-mainnet", prop="C19", file=A, find="if state.network == NetID::Mainnet && !bug_compatible_with_inflation_exploit {", repl="if false && state.network == NetID::Mainnet && !bug_compatible_with_inflation_exploit {", expect="R2/mainnet=>err"),
+    dict(id="c19-testnet-instead", prop="C19", file=A, find="if state.network == NetID::Mainnet && !bug_compatible_with_inflation_exploit {", repl="if state.network == NetID::Testnet && !bug_compatible_with_inflation_exploit {", expect="R2/"),
+    dict(id="c19-key-mismatch", prop="C19", file=A, find="        if !bug_compatible_with_inflation_exploit {\n            state.coins.insert_coin(\n                pseudocoin,", repl="        if !bug_compatible_with_inflation_exploit {\n            state.coins.insert_coin(\n                faucet_dedup_pseudocoin(tmelcrypt::hash_single(tx.hash_nosigs().0).into()),", expect="R3/insert/key"),
+    dict(id="c19-marker-only-with-outputs", prop="C19", file=A, find="        if !bug_compatible_with_inflation_exploit {\n            state.coins.insert_coin(", repl="        if !bug_compatible_with_inflation_exploit && !tx.outputs.is_empty() {\n            state.coins.insert_coin(", expect="R3/ok=>marked"),
+    dict(id="c19-dup-ignored", prop="C19", file=A, find="            return Err(StateError::DuplicateTx);\n", repl="            log::warn!(\"dup\");\n", expect="R3/present=>err"),
+    dict(id="c19-faucet-after-effects", prop="C19", file=A, find="        if tx.kind == TxKind::Faucet {\n            handle_faucet_tx(&mut next_state, tx)?;\n        }\n\n        for (i, _) in tx.outputs.iter().enumerate() {", repl="        if tx.kind == TxKind::Faucet && !tx.inputs.is_empty() {\n            handle_faucet_tx(&mut next_state, tx)?;\n        }\n\n        for (i, _) in tx.outputs.iter().enumerate() {", expect="R1/first"),
+    dict(id="c19-faucet-error-ignored", prop="C19", file=A, find="            handle_faucet_tx(&mut next_state, tx)?;\n", repl="            let _ = handle_faucet_tx(&mut next_state, tx);\n", expect="R1/error-propagates"),
+    dict(id="c19-exception-prefix", prop="C19", file=A, find="tx.hash_nosigs().to_string() == INFLATION_BUG_TX_HASH;", repl="tx.hash_nosigs().to_string().starts_with(&INFLATION_BUG_TX_HASH[..2]);", expect="R2/"),
+    dict(id="c19-marker-spendable", prop="C19", file=A, find="                        covhash: HashVal::default().into(),", repl="                        covhash: tx.outputs.get(0).map(|o| o.covhash).unwrap_or(HashVal::default().into()),", expect="R3/marker/covhash"),
+    dict(id="c19-q-unconditional-call", prop="C19", file=A, find="        if tx.kind == TxKind::Faucet {\n            handle_faucet_tx(&mut next_state, tx)?;\n        }\n", repl="        handle_faucet_tx(&mut next_state, tx)?;\n", expect=None),
     # quiet ones
     dict(id="c05-q-le", prop="C05", file=A, find="if tx.fee < min_fee {", repl="if !(tx.fee >= min_fee) {", expect=None),
     dict(id="c05-q-div65536", prop="C05", file=S, find="CoinValue(self.fee_pool.0 >> 16)", repl="CoinValue(self.fee_pool.0 / 65536)", expect=None),
